@@ -1,0 +1,23 @@
+//go:build verif
+
+// Verification hook for the stream face (add-only; compiled only with -tags verif): a StreamFace on a
+// connection supplied by the caller (net.Pipe, gated connections) instead of one it dials itself.
+// No behaviour of the package is changed.
+
+package face
+
+import (
+	"net"
+
+	enc "github.com/named-data/ndnd/std/encoding"
+)
+
+// VerifNewStreamFaceOnConn returns a running StreamFace that uses conn. The receive loop is not
+// started; call Run (in a goroutine) on a face that should receive.
+func VerifNewStreamFaceOnConn(conn net.Conn, onPkt func(r enc.ParseReader) error, onError func(err error) error) *StreamFace {
+	f := NewStreamFace("verif", "", true)
+	f.SetCallback(onPkt, onError)
+	f.conn = conn
+	f.running.Store(true)
+	return f
+}
